@@ -343,7 +343,8 @@ def int_program(draw, m, l, max_nodes=10, heavy=True, awaits=False, min_nodes=2,
     kinds = ['un', 'bin', 'bin', 'bin', 'binp', 'binp', 'rbinp', 'ifelse', 'red', 'inprod',
              'pub', 'multi', 'multi', 'multi', 'bitop', 'const', 'in']
     if awaits:
-        kinds += ['await'] * 2 + ['barrier', 'coro', 'modlike', 'modlike', 'modlike']
+        kinds += ['await'] * 2 + ['barrier', 'coro', 'modlike', 'modlike', 'modlike'] + ['multi'] * 5 + ['inprod']
+        # (list operations are separate MPyC coroutines each: schedule properties need every one of them often)
     if heavy:
         kinds += ['heavy']
     if rnd:
@@ -470,6 +471,27 @@ def int_program(draw, m, l, max_nodes=10, heavy=True, awaits=False, min_nodes=2,
                 continue
             nodes.append(nd)
             vals.append(v)
+            if awaits and draw(st.booleans()):
+                # a sibling of the same operation right behind it: two protocol instances of the same kind are
+                # then pending together, with operands dealt by different parties
+                sib = None
+                sc2, b2 = scalars(), bits()
+                r2 = st.sampled_from(sc2)
+                if nd[0] == 'multi' and nd[1] in ('ifelse_list', 'ifswap_list') and b2:
+                    n2 = len(nd[3])
+                    sib = ['multi', nd[1], draw(st.sampled_from(b2)), [draw(r2) for _ in range(n2)],
+                           [draw(r2) for _ in range(n2)]]
+                elif nd[0] == 'multi' and nd[1] in ('schur_prod', 'vector_add', 'vector_sub') and nd[2]:
+                    sib = ['multi', nd[1], [draw(r2) for _ in nd[2]], [draw(r2) for _ in nd[2]]]
+                elif nd[0] == 'inprod' and nd[1]:
+                    sib = ['inprod', [draw(r2) for _ in nd[1]], [draw(r2) for _ in nd[1]]]
+                if sib is not None:
+                    try:
+                        v2 = ref_node(sib, vals, l)
+                        nodes.append(sib)
+                        vals.append(v2)
+                    except Invalid:
+                        pass
             if awaits and nd[0] not in ('await', 'barrier') and draw(st.booleans()):
                 # await an earlier (possibly already completed) value right after starting an operation
                 sc = scalars()
@@ -801,7 +823,9 @@ def schedule(draw, m, rich=True):
         s['changes'] = draw(st.lists(st.tuples(st.integers(0, 3000), st.integers(0, ne - 1)).map(list),
                                      max_size=6))
     if mode != 'fast':
-        s['chunks'] = draw(st.lists(st.sampled_from([0, 0, 1, 2, 5, 11, 12, 13, 40, 1000]), max_size=5))
+        # -1 = message-wise delivery (each message can be delayed on its own)
+        s['chunks'] = draw(st.one_of(st.lists(st.sampled_from([0, 0, 1, 2, 5, 11, 12, 13, 40, 1000, -1, -1]), max_size=5),
+                                     st.just([-1])))
     return s
 
 
